@@ -95,6 +95,8 @@ pub enum ValueClass {
     FarCluster,
     /// the same with ~6 % outliers at varied angles: every attempt is 95-99 % imbalanced
     FarClusterMixed,
+    /// ordinary uniform data scaled by 1e-9 (margins and distances far below f32::EPSILON, still normal floats)
+    TinyScale,
 }
 
 #[derive(Clone, Debug, PartialEq, Eq, Hash, Serialize, Deserialize)]
